@@ -217,6 +217,24 @@ def r01_4(ctx):
 
 # ===================================================================================== C11
 
+def _list_sites(b, field):
+    """where an entry is destined for Directory.<field>: pushes whose receiver is that field only, and — when the receiver is a
+    list reference chosen earlier (`let list = if .. { &mut d.files } else { &mut d.subdirs }`) — the blocks that select the field"""
+    out = []
+    for bb, t in calls_to(b, "std::vec::Vec::<T, A>::push"):
+        lv = C.trace(b, t["args"][0], through_fields=True)
+        flds = {n for l in lv if l.kind == "field" for (o, v, n) in C.pl_fields(l.data) if n in ("files", "subdirs")}
+        if flds == {field}:
+            out.append((bb, t))
+        elif field in flds:
+            # receiver selected among several lists: guard the selecting reference
+            for sbb, si, st in b.stmts():
+                if st["k"] == "assign" and st["rv"]["k"] == "ref" and st["rv"].get("mut") and \
+                        any(n == field for (o, v, n) in C.pl_fields(st["rv"]["pl"])):
+                    out.append((sbb, t))
+    return out
+
+
 @rule("C11", "R11.1", floor=3)
 def r11_1(ctx):
     lib = ctx.lib
@@ -225,7 +243,7 @@ def r11_1(ctx):
         prec = sd.param_index_by_name("recursive")
         rec_true = C.guard_edges(sd, lib, lambda c, v, leaf: c.kind == "bool" and leaf is not None and leaf.kind == "param" and leaf.data == prec and v is True)
         dir_true = bool_call_edges(sd, lib, "std::path::Path::is_dir", True)
-        pushes = [(bb, t) for bb, t in calls_to(sd, "std::vec::Vec::<T, A>::push") if has_field(C.trace(sd, t["args"][0], through_fields=True), "subdirs")]
+        pushes = _list_sites(sd, "subdirs")
         if not pushes:
             ctx.anchor_missing("push to Directory.subdirs in scan_dir")
         for bb, t in pushes:
@@ -263,7 +281,7 @@ def r11_2(ctx):
         return
     f_true = bool_call_edges(sd, lib, "std::path::Path::is_file", True)
     t_true = bool_call_edges(sd, lib, ROLE["is_txtpp_file"], True)
-    pushes = [(bb, t) for bb, t in calls_to(sd, "std::vec::Vec::<T, A>::push") if has_field(C.trace(sd, t["args"][0], through_fields=True), "files")]
+    pushes = _list_sites(sd, "files")
     if not pushes:
         ctx.anchor_missing("push to Directory.files in scan_dir")
     for bb, t in pushes:
@@ -400,6 +418,58 @@ def _flows_into_sort(b, local):
     return False
 
 
+SEARCHES = {"std::iter::Iterator::find": "opt", "std::iter::Iterator::position": "opt", "std::iter::Iterator::find_map": "opt",
+            "std::iter::Iterator::any": "bool"}
+
+
+def _conflict_search(ctx, cr, stores, none_e):
+    lib = ctx.lib
+    pv = prov(ctx)
+    for bb, t in cr.calls():
+        kind = SEARCHES.get(C.callee_name(t))
+        if not kind or len(t.get("arg_tys", [])) < 2:
+            continue
+        cl = lib.bodies.get(t["arg_tys"][1].get("closure", ""))
+        if cl is None or not has_field(C.trace(cr, t["args"][0], through_fields=True, transparent=lambda tt: C.is_transparent(tt) or C.callee_name(tt) in (
+                "std::collections::HashMap::<K, V, S, A>::keys", "std::collections::HashMap::<K, V, S, A>::iter")), "stored"):
+            continue
+        # both directions of starts_with between the closure's item and the captured tag
+        dirs = set()
+        for cbb, ct in calls_to(cl, "std::str::<impl str>::starts_with"):
+            def is_tag(op):
+                for l in C.trace(cl, op):
+                    if l.kind != "upvar":
+                        continue
+                    idx = next((e["i"] for e in l.data["p"] if e["k"] == "field" and e.get("upvar")), None)
+                    for (pb, pbb, ops) in pv.closure_creation(cl):
+                        if pb is cr and idx is not None and idx < len(ops) and has_param(C.trace(cr, ops[idx]), cr, "tag"):
+                            return True
+                return False
+            dirs.add((is_tag(ct["args"][0]), is_tag(ct["args"][1])))
+        # the closure returns the disjunction (true when either holds): no negation on the way to its return value
+        ret = C.trace(cl, {"l": 0, "p": []})
+        positive = bool(ret) and not any(l.neg for l in ret)
+        if not ({(True, False), (False, True)} <= dirs and positive):
+            ctx.violation(["prefix-one-direction"], "the prefix relation between the new tag and stored tags is not tested in both directions by the "
+                          "search predicate", site=ctx.site(cr, bb))
+            return True
+        if kind == "opt":
+            clear = enum_edges(cr, lib, "std::option::Option", lambda vs: vs == {"None"}, src_pred=lambda c, bb=bb: any(l.kind == "call" and l.bb == bb for l in c.src))
+        else:
+            clear = C.guard_edges(cr, lib, lambda c, v, leaf, bb=bb: c.kind == "bool" and leaf is not None and leaf.kind == "call" and leaf.bb == bb and v is False)
+        for sbb in stores:
+            if none_e and C.guarded(cr, sbb, none_e):
+                ctx.ok("a tag starts listening only when no tag is listening", site=ctx.site(cr, sbb))
+            else:
+                ctx.violation(["listening-overwrite"], "a new tag can start listening while another is still waiting for output", site=ctx.site(cr, sbb))
+            if clear and C.guarded(cr, sbb, clear):
+                ctx.ok("the store sits on the no-conflict edge of the prefix search (both directions tested in the predicate)", site=ctx.site(cr, sbb))
+            else:
+                ctx.violation(["prefix-conflict"], "a tag can start listening although the prefix search found a conflicting stored tag", site=ctx.site(cr, sbb))
+        return True
+    return False
+
+
 def built_variant(b, op):
     """variant of the Option/enum aggregate a moved operand was built as (single-def chain), or None"""
     p = C.op_place(op)
@@ -437,6 +507,12 @@ def r14_2(ctx):
                         src_pred=lambda c: has_field(C.trace(cr, c.place, through_fields=True), "listening") or has_field(c.src, "listening"))
     sw_true = bool_call_edges(cr, lib, "std::str::<impl str>::starts_with", True)
     n_sw = len(calls_to(cr, "std::str::<impl str>::starts_with"))
+    if n_sw == 0:
+        # iterator form: `stored.keys().find(|k| k.starts_with(tag) || tag.starts_with(k))` (or any / position): the conflict test lives
+        # in the predicate closure; the store must sit on the nothing-found edge
+        r = _conflict_search(ctx, cr, stores, none_e)
+        if r:
+            return
     for bb in stores:
         if none_e and C.guarded(cr, bb, none_e):
             ctx.ok("a tag starts listening only when no tag is listening", site=ctx.site(cr, bb))
@@ -469,6 +545,8 @@ def r14_3(ctx):
         return
     store_failed = bool_call_edges(ri, lib, "std::result::Result::<T, E>::is_err", True,
                                    arg_pred=lambda t: has_call(C.trace(ri, t["args"][0]), ROLE["tag_try_store"])) | \
+        bool_call_edges(ri, lib, "std::result::Result::<T, E>::is_ok", False,
+                        arg_pred=lambda t: has_call(C.trace(ri, t["args"][0]), ROLE["tag_try_store"])) | \
         enum_edges(ri, lib, "std::result::Result", lambda vs: vs == {"Err"}, src_pred=lambda c: has_call(c.src, ROLE["tag_try_store"]))
     fs = calls_to(ri, ROLE["format_directive_output"])
     if not fs:
@@ -570,7 +648,9 @@ def r15_1(ctx):
         ctx.violation(["marker"], "the directive marker constant is %s, documented \"TXTPP#\"" % (c["value"] if c else None))
     df = body(ctx, "detect_from")
     if df:
-        so = calls_to(df, "std::str::<impl str>::split_once")
+        so = [x for x in calls_to(df, "std::str::<impl str>::split_once") + calls_to(df, "std::str::<impl str>::splitn")
+              if not any(l.kind == "const" and (l.data.get("named", "").endswith("TXTPP_HASH") or C.op_const(l.data) == '"TXTPP#"')
+                         for l in C.trace(df, x[1]["args"][1]))]
         if len(so) == 1 and C.op_const(so[0][1]["args"][1]) == "' '":
             ctx.ok("name/argument separator is one space (split_once(' '))", site=ctx.site(df, so[0][0]))
         else:
@@ -641,11 +721,11 @@ def r15_4(ctx):
         else:
             ctx.ok("no reverse search in %s" % b.name.rsplit("::", 1)[-1], site=ctx.site(b, 0))
     if df:
-        fs = calls_to(df, "std::str::<impl str>::find")
+        fs = calls_to(df, "std::str::<impl str>::find") + calls_to(df, "std::str::<impl str>::split_once")
         marker = [x for x in fs if any(l.kind == "const" and (l.data.get("named", "").endswith("TXTPP_HASH") or C.op_const(l.data) == '"TXTPP#"')
                                        for l in C.trace(df, x[1]["args"][1]))]
         if len(marker) == 1:
-            ctx.ok("the directive marker is located with str::find(TXTPP_HASH)", site=ctx.site(df, marker[0][0]))
+            ctx.ok("the directive marker is located with a forward first-occurrence search (find / split_once) for TXTPP_HASH", site=ctx.site(df, marker[0][0]))
         else:
             ctx.violation(["marker-find"], "detect_from no longer locates the marker with a single forward find(TXTPP_HASH)", site=ctx.site(df, 0))
 
@@ -661,10 +741,19 @@ def r14_6(ctx):
         ins = [(bb, t) for bb, t in calls_to(ts, "std::collections::HashMap::<K, V, S, A>::insert") if has_field(C.trace(ts, t["args"][0]), "stored")]
         pc = ts.param_index_by_name("content")
         good = bool(ins)
+        strict = lambda tt: C.is_transparent(tt) and not C.callee_name(tt).endswith(("unwrap_or_default", "unwrap_or", "unwrap_or_else")) or \
+            C.callee_name(tt) in ("std::option::Option::<T>::ok_or", "std::option::Option::<T>::ok_or_else", "std::option::Option::<T>::take")
         for bb, t in ins:
-            key = C.trace(ts, t["args"][1], through_fields=True)
+            key = C.trace(ts, t["args"][1], through_fields=True, transparent=strict)
             val = C.trace(ts, t["args"][2])
-            if not (has_field(key, "listening") and any(l.kind == "param" and l.data == pc for l in val) and some_e and C.guarded(ts, bb, some_e)):
+            # the key is the payload of `listening` (it exists only if a tag was listening): through a Some edge or through `take().ok_or(..)?`
+            key_ok = has_field(key, "listening") and not any(l.kind == "call" and l.callee().endswith(("unwrap_or_default", "unwrap_or", "unwrap_or_else")) for l in key)
+            guarded_some = (some_e and C.guarded(ts, bb, some_e)) or bool(try_ok_edges(ts, lib, ("std::option::Option::<T>::ok_or", "std::option::Option::<T>::ok_or_else",
+                                                                                                    "std::option::Option::<T>::take")) and
+                                                                           C.guarded(ts, bb, try_ok_edges(ts, lib, ("std::option::Option::<T>::ok_or",
+                                                                                                                     "std::option::Option::<T>::ok_or_else",
+                                                                                                                     "std::option::Option::<T>::take"))))
+            if not (key_ok and any(l.kind == "param" and l.data == pc for l in val) and guarded_some):
                 good = False
         # listening is reset: `self.listening = None`, or Option::take / mem::take on the field
         resets = [bb for bb, si, st in ts.stmts() if st["k"] == "assign" and st["lhs"]["p"] and st["lhs"]["p"][-1].get("name") == "listening"
@@ -811,6 +900,9 @@ def r15_5(ctx):
                 verdict.append("ok")
                 continue
             nm = l.callee() if l.kind == "call" else None
+            if nm == "std::string::String::new":
+                verdict.append("ok")          # the empty argument of the bare-prefix form
+                continue
             if nm in TRIMS:
                 work += [(fb, m) for m in C.trace(fb, l.data["args"][0])]
                 verdict.append("trimmed")
@@ -834,7 +926,7 @@ def r15_5(ctx):
             else:
                 verdict.append("argument text passes through %s (content would be altered)" % (nm or l.kind))
         if "trimmed" not in verdict and any(v == "ok" for v in verdict) and not all(
-                l.kind == "const" for l in C.trace(al, t["args"][1])):
+                l.kind == "const" or (l.kind == "call" and l.callee() == "std::string::String::new") for l in C.trace(al, t["args"][1])):
             verdict.append("not right-trimmed")
         verdict = [v for v in verdict if v != "trimmed"]
         bad = [v for v in verdict if v != "ok"]
@@ -920,6 +1012,7 @@ def r01_6(ctx):
     cbb = contents[0][0]
     bad = []
     n_not = 0
+    is_some_form = False
     for rec in ri.defs().get(fl, []):
         if rec[0] != "assign":
             bad.append("non-assignment def")
@@ -930,7 +1023,17 @@ def r01_6(ctx):
         if rv["k"] == "unop" and rv["op"] == "Not":
             n_not += 1
             src = C.trace(ri, rv["a"])
-            tail_ok = all((l.kind == "const" and C.op_const(l.data) in ("true", "false")) for l in src) and src
+
+            def tail_probe(l):
+                # `tail.is_some()` on the terminating-line payload, or on the saved tail line itself
+                if l.kind != "call" or C.callee_name(l.data) != "std::option::Option::<T>::is_some":
+                    return False
+                lv = C.trace(ri, l.data["args"][0], through_fields=True)
+                return has_field(lv, "execute_tail_line") or any(
+                    x.kind == "field" and any(o == ADT["IterDirectiveResult"] and v == "Execute" for (o, v, n) in C.pl_fields(x.data)) for x in lv)
+            tail_ok = bool(src) and all((l.kind == "const" and C.op_const(l.data) in ("true", "false")) or tail_probe(l) for l in src)
+            if any(tail_probe(l) for l in src):
+                is_some_form = True
             # the assignment happens on the way to the content write (same is_execute / Some(to_write) region)
             if not tail_ok or cbb not in ri.reachable(rec[1]) or ri.in_cycle(rec[1]) is False:
                 bad.append("pending := !x where x is not the has_tail flag, or not before the content write")
@@ -952,7 +1055,10 @@ def r01_6(ctx):
     trues = [(rec[1], rec[3]["lhs"]["l"]) for l in range(len(ri.locals)) for rec in ri.defs().get(l, [])
              if ri.locals[l]["ty"] == "bool" and ri.local_name(l) == "has_tail" and rec[0] == "assign" and rec[3]["rv"]["k"] == "use"
              and C.op_const(rec[3]["rv"]["op"]) == "true"]
-    if trues and stores and all(any(tb in ri.reachable(sb) or tb == sb for sb in stores) for tb, _ in trues) and \
+    if is_some_form and stores:
+        # has_tail == tail.is_some(); that the tail is re-queued whenever it is Some is R16.4 (= R01.5)
+        ctx.ok("has_tail is `tail.is_some()`; re-queuing on the Some path is R01.5", site=ctx.site(ri, stores[0]))
+    elif trues and stores and all(any(tb in ri.reachable(sb) or tb == sb for sb in stores) for tb, _ in trues) and \
             all(C.guarded(ri, tb, out_edges(ri, stores)) or tb in stores for tb, _ in trues):
         ctx.ok("has_tail is set exactly where the terminating line is re-queued", site=ctx.site(ri, trues[0][0]))
     else:
